@@ -288,7 +288,7 @@ EXT_BASES = {
     "socket.error": "builtins.OSError", "socket.timeout": "builtins.TimeoutError",
     "socket.gaierror": "builtins.OSError", "socket.herror": "builtins.OSError",
     "ssl.SSLError": "builtins.OSError", "ssl.SSLEOFError": "ssl.SSLError",
-    "ssl.SSLWantReadError": "ssl.SSLError", "ssl.SSLWantWriteError": "ssl.SSLError",
+    "ssl.SSLWantReadError": "ssl.SSLError", "ssl.SSLWantWriteError": "ssl.SSLError", "http.cookies.CookieError": "builtins.Exception",
     "ssl.SSLCertVerificationError": "ssl.SSLError", "ssl.CertificateError": "ssl.SSLError",
     "struct.error": "builtins.Exception",
 }
